@@ -385,7 +385,7 @@ def r8_cursor_on_identifier(c, facts, rule='C17.R8'):
                 c.ok(R, inst)
             else:
                 c.bad(R, '%s:cursor-resolved-to:%s' % (home, kind), '%s answers for every position inside a %s node - also the blanks, the punctuation and the comments between its tokens, which are not identifiers' % (g.qname, kind), **inst)
-    c.floor(R, 'cursor look-ups in the handlers', n, 3)
+    c.floor(R, 'cursor look-ups in the handlers', n, 1)      # one shared helper is enough
 
 
 def r6_folders(c, facts, rule='C17.R6'):
